@@ -152,8 +152,12 @@ class StepOperationExecutor(OperationExecutor[T]):
         ):
             return CheckResult.create_is_ready_to_execute(checkpointed_result)
 
-        # Create START checkpoint if not exists
-        if not checkpointed_result.is_existent():
+        # Create START checkpoint if not exists, or if a new attempt is due (READY after a retry):
+        # every attempt must record its start before the step function is entered.
+        if not checkpointed_result.is_existent() or (
+            checkpointed_result.is_started_or_ready()
+            and not checkpointed_result.is_started()
+        ):
             start_operation: OperationUpdate = OperationUpdate.create_step_start(
                 identifier=self.operation_identifier,
             )
